@@ -63,7 +63,35 @@ def known_f5():
     return bool(r), (r[1] if r else 'not reproduced') + '  [scope 10 is a top-level block (sibling of function 30); JS: `{ let x }  function f(){ x }`]'
 
 
+def search_defuse():
+    """real add_status_with_symbol_id_sync on a `nonlocal x` / `global x` statement: which flag reaches the resolver"""
+    from lian.basics.stmt_def_use_analysis import StmtDefUseAnalysis
+    from lian.common_structs import Symbol, StmtStatus, MethodDefUseSummary
+    wit, cases = [], 0
+    for op, want in (('nonlocal_stmt', False), ('global_stmt', True)):
+        cases += 1
+        seen = []
+        a = object.__new__(StmtDefUseAnalysis)
+        a.symbol_state_space = [Symbol(stmt_id=50, name='x')]
+        a.stmt_id_to_status = {}
+        a.each_stmt_defined_states = set()
+        a.tmp_variable_to_define = {}
+        a.external_symbol_id_collection = {}
+        a.unit_id = 7
+        a.frame = types.SimpleNamespace(defined_symbols={}, used_symbols={}, method_def_use_summary=MethodDefUseSummary(1))
+        a.loader = types.SimpleNamespace(assign_new_unique_negative_id=lambda: -5)
+        a.resolver = types.SimpleNamespace(resolve_symbol_source_decl=lambda *p, **k: seen.append(k.get('source_symbol_must_be_global', p[3] if len(p) > 3 else False)))
+        a.add_status_with_symbol_id_sync(50, types.SimpleNamespace(stmt_id=50, operation=op), StmtStatus(stmt_id=50, defined_symbol=0))
+        if not seen or bool(seen[0]) != want:
+            wit.append(dict(function='StmtDefUseAnalysis.add_status_with_symbol_id_sync', input=op, observed=f'{op}: the resolver is asked with source_symbol_must_be_global={seen[:1]}, expected {want}',
+                            clauses=['scoping']))
+    return wit, cases
+
+
 def search(target, models):
+    if 'add_status' in target or target == 'extra':
+        wit, cases = search_defuse()
+        return dict(witnesses=wit, searched=f'{cases} statements (nonlocal, global)', how='real add_status_with_symbol_id_sync with a recording resolver stub')
     # the implicit-root union is the recorded finding; anything that fails WITHOUT implicit roots is new
     wit, cases = search_resolver(False)
     return dict(witnesses=wit[:3], searched=f'{cases} (declaring scopes, use scope) placements on a 6-scope tree, no implicit roots',
